@@ -261,7 +261,7 @@ func runGated(c map[string]interface{}, doc *osmDoc, keep string, w int) []Event
 		sched = arr(v)
 	}
 	si := 0
-	deadline := time.After(25 * time.Second)
+	deadline := time.After(15 * time.Second)
 
 	step := func(o osmObj, act string, extra Event) {
 		e := Event{"ev": "step", "o": o.json(), "a": act, "has": false, "need": false, "m": []interface{}{"x", 0}, "again": false}
@@ -357,7 +357,7 @@ func runGated(c map[string]interface{}, doc *osmDoc, keep string, w int) []Event
 					close(a.rel)
 				}
 				return append(evs, Event{"ev": "result", "keep": keep, "mode": "gated", "followed": false, "passes": passes,
-					"nodes": []interface{}{}, "ways": []interface{}{}, "rels": []interface{}{}, "err": "harness: scheduler deadline", "check": "none"})
+					"nodes": []interface{}{}, "ways": []interface{}{}, "rels": []interface{}{}, "err": "harness: scheduler deadline", "check": "none", "hang": true})
 			}
 		}
 		if finished {
